@@ -40,7 +40,7 @@ ITER_ASSUME = [
     'R8: Iterator::next re-hosted as an inherent method so that it can carry `requires wf(self)`',
     'iterator constructor (FlopExhaustiveEvaluatorIterator::new) establishes wf(): deck = the 49 cards not on the flop in code order, entries = the ranges\' combos with two different cards each -- see constructor obligations in evidence',
     'legal(c) is phrased as the code\'s materialisation test; lemma_legal_distinct (proved, Verus) shows it is exactly "all 5+2n cards of the deal are pairwise different"',
-    'exactly-once: lemma_succ_rank (proved, Verus) shows one step raises cur_rank = position_index * prod(lens) + mixed_radix(idx) by exactly 1, so the orbit never revisits a cursor and reaches the scope end after rank(end) - rank(start) steps; that cur_rank is a bijection between valid cursors and 0..1176*prod(lens) (uniqueness of mixed-radix representation) is standard and NOT mechanised',
+    'exactly-once (proved, Verus): lemma_succ_rank: one step raises cur_rank = position_index * prod(lens) + mixed_radix(idx) by exactly 1; lemma_cur_rank_inj: cur_rank is injective on valid cursors; lemma_orbit_covers: every valid cursor whose rank lies in [rank(start), rank(start)+k) is the (rank difference)-th element of the orbit. What stays on paper is only the composition with the stepper contract across successive next() calls (induction over calls)',
 ]
 ITER_SAMPLES = [
     {'obligation': 'FlopExhaustiveEvaluatorIterator::next postcondition', 'clause': 'next_post(*old(self), *final(self), res): Some(sd) ==> exists k. skipped(g,a,k) && legal(adv(a,k)) && is_showdown_of(sd, combos_at, board_at, prob_at) && cursor == succ(adv(a,k)); None ==> some range empty or exists k. skipped(g,a,k) && adv(a,k) at the scope end'},
@@ -48,6 +48,7 @@ ITER_SAMPLES = [
     {'obligation': 'next: built-in', 'clause': 'no u8/usize overflow, every index in bounds, every unwrap on Some'},
     {'obligation': 'lemma_legal_distinct', 'clause': 'game_ok(g) && cur_ok(g, c) ==> (legal(g, c) <==> distinct_cards(deal_cards(g, c)))'},
     {'obligation': 'lemma_succ_rank', 'clause': 'cur_rank(succ(c, lens), lens) == cur_rank(c, lens) + 1'},
+    {'obligation': 'lemma_orbit_covers', 'clause': 'skipped_or_visited(g, a, k, tt, rt) && cur_ok(g, q) && rank(a) <= rank(q) < rank(a) + k ==> q == adv(a, lens, rank(q) - rank(a))'},
 ]
 
 CONFIG['C02'] = dict(unit='iter', allowed=ITER_ALLOWED, assumptions=ITER_ASSUME, samples=ITER_SAMPLES,
@@ -187,11 +188,14 @@ MULTI['C05'] = dict(
     ],
     search=[['c05-search', '{seed}', '{n}']], search_n={'quick': 3000, 'thorough': 30000})
 
+FMT_ALLOWED = [r'^external_body pub fn (into_iter|f32_eq|f32_ne|rank_pairs|orphan_card_pairs)', r'^uninterp spec pub uninterp spec fn f32_eq_spec', r'axiom_pair_key_models']
+
 MULTI['C09'] = dict(
     parts=[_k_card('CARD-STR', ['c09_rank_suit_card_from_str_4', 'c09_cardpair_from_str_6'], [STR_BOUND_Q]),
            _k_token('TOKEN-STR', TOK_TOTAL_Q, TOK_TOTAL_T, [STR_BOUND_Q]),
-           _v('token', TOKEN_ALLOWED), _v('range', RANGE_ALLOWED), _v('iter', ITER_ALLOWED)],
+           _v('token', TOKEN_ALLOWED), _v('range', RANGE_ALLOWED), _v('iter', ITER_ALLOWED), _v('fmt', FMT_ALLOWED)],
     assumptions=TOKEN_ASSUME + [
+        'Verus (unit FMT): the token-building prefix of Display for HandRange (D3: everything before `let mut res = f.write_str(..)`) has no panic path for any range: its nine unwrap()s are discharged from the run-state invariant "a run is open only at a rank pair that is in the map"; the tail (joining the own Display of the tokens with commas through core::fmt::Formatter) is NOT covered',
         'Kani (bounded strings): Rank/Suit/Card::from_str (<= 4 bytes), CardPair::from_str (<= 6 bytes), HandRangeToken::from_str (<= 9 / 12 bytes) return normally, and Ok(t) ==> token_wf(t)',
         'Verus: under token_wf, HandRangeToken::into_iter has no panic path (RankRange slicing precondition, unwrap of high.next()); rank_pairs / orphan_card_pairs have none for any range; next() has none under wf() (C08)',
         'NOT decided: HandRange::from_str\'s own replace/split lines, Display for HandRange / HandRangeToken (Formatter)',
@@ -223,3 +227,21 @@ MULTI['C10'] = dict(
         {'obligation': 'lemma_token_distinct', 'clause': 'token_wf(t) ==> forall i. expand_combos(t)[i].0 != expand_combos(t)[i].1'},
     ],
     search=[['parse-search', '{seed}', '{n}', 'c10']], search_n={'quick': 20000, 'thorough': 200000})
+
+
+MULTI['C17'] = dict(
+    parts=[_v('fmt', FMT_ALLOWED), _v('range', RANGE_ALLOWED)],
+    assumptions=[
+        'TOKEN-LIST LEVEL ONLY. Verus proves, on the real token-building prefix of Display for HandRange (rule D3: everything before `let mut res = f.write_str(..)`; 8 loops), that the token list equals canon(self.0@), a spec function of the contents alone: pockets from aces down, then for each high card its suited and then its offsuit kickers (each row scanned into maximal runs: a run is closed at the first rank that is absent or whose weight is f32-unequal to the weight at the start of the run), then the leftover single combos in fixed order',
+        'hence equal contents => equal token lists, whatever the construction history (the two views it reads are functions of the contents by the contracts of C12: lemma_rank_pairs_unique / lemma_orphans_unique)',
+        'TEXT LEVEL ASSUMED: the dropped tail joins the own Display of the tokens with commas through core::fmt::Formatter; Display for HandRangeToken / RankPair / CardPair / f32 are deterministic functions of the token value (not verified; f32 0.0 and -0.0 compare equal but print differently)',
+        '"no two emitted rank-pair tokens could be merged" is read off the definition of canon (a new run starts exactly where the previous one was closed because the weight differs or a rank is missing); not stated as a separate lemma',
+        DERIVE, 'key-model axioms for CardPair / RankPair; f32 == / != uninterpreted (R16); callee contracts rank_pairs / orphan_card_pairs proved in unit RANGE',
+    ],
+    not_decided=['text of the tokens (Formatter), C06 round trip'],
+    no_witness_undecided='canon pins the exact order of the leftover combos and the exact token shapes, which is more than "depends only on the contents"',
+    samples=[
+        {'obligation': 'HandRange::fmt (prefix, re-hosted as fmt_tokens) postcondition', 'clause': 'res@ =~= canon(self.0@)'},
+        {'obligation': 'lemma_rank_pairs_unique', 'clause': 'is_rank_pairs_of(r1, m) && is_rank_pairs_of(r2, m) ==> r1 == r2'},
+    ],
+    search=[['c17-search', '{seed}', '{n}']], search_n={'quick': 3000, 'thorough': 30000})
